@@ -123,6 +123,18 @@ def matchcompiler_h(kb):
     return text
 
 
+LAST_WORDS = set()     # last word of every pattern literal (filled by source_words)
+
+
+def optional_word(w):
+    """the word has an empty alternative (`const|`) and no pattern literal of the sources ends in such a word"""
+    if w in ("|", "||") or w.startswith("[") or w.startswith("!!"):
+        return False
+    if "" not in w.split("|"):
+        return False
+    return not any(x not in ("|", "||") and not x.startswith("[") and "" in x.split("|") for x in LAST_WORDS)
+
+
 def source_words():
     """distinct pattern words of all Token::Match-family pattern literals in lib/*.cpp"""
     words = set()
@@ -145,6 +157,9 @@ def source_words():
                             for w in lit.split(' '):
                                 if w:
                                     words.add(w)
+                            # a literal that is the whole pattern argument (not a piece of a run-time concatenation such as "struct| " + name)
+                            if lit.split() and txt[j + 1:j + 40].lstrip()[:1] in (",", ")") and txt[:i].rstrip()[-1:] == ",":
+                                LAST_WORDS.add(lit.split()[-1])
                         break
                     i = j + 1
                     continue
@@ -303,14 +318,14 @@ def build(ctx):
     brackets = [w for w in special if w.startswith("[")]
     negs = [w for w in special if w.startswith("!!")]
     pct = [w for w in special if w not in brackets and w not in negs and w not in CMD_WORDS]
-    if ctx.tier == "thorough":
-        chosen = usable
-    else:
-        # quick: every %cmd% word, every !! word, and seeded samples of the bracket sets, the alternatives with %cmd% and the plain words
-        # (words longer than 16 characters - many alternatives - need more than the per-job memory/time budget of the quick tier)
-        short = lambda ws: [w for w in ws if len(w) <= 16]
-        chosen = list(CMD_WORDS) + sorted(negs) + sorted(rng.sample(short(brackets), min(6, len(short(brackets))))) + \
-            sorted(rng.sample(short(pct), min(8, len(short(pct))))) + sorted(rng.sample(short(plain), min(6, len(short(plain)))))
+    # every %cmd% word, every !! word, and seeded samples of the bracket sets, the alternatives with %cmd% and the plain words
+    # (words longer than 16 characters - many alternatives - need more than the per-job memory/time budget; their literal alternatives are
+    # covered by the probes below).  The thorough tier takes five times the quick sample (all 1100 words took about 3 hours on 16 cores
+    # and a fifth of them ran out of the per-job budget on a loaded machine).
+    short = lambda ws: [w for w in ws if len(w) <= 16]
+    mult = 5 if ctx.tier == "thorough" else 1
+    chosen = list(CMD_WORDS) + sorted(negs) + sorted(rng.sample(short(brackets), min(6 * mult, len(short(brackets))))) + \
+        sorted(rng.sample(short(pct), min(8 * mult, len(short(pct))))) + sorted(rng.sample(short(plain), min(6 * mult, len(short(plain)))))
     # match compiler's token-type table: spelling => one of the listed types (token invariant assumed for these spellings)
     sys.path.insert(0, os.path.join(extract.REPO, "tools"))
     try:
@@ -342,9 +357,14 @@ def build(ctx):
                 cpp = compile_word(pat, nr, has_varid)
                 pieces.append(lower_compiled(cpp, nr))
                 maxlen = max(maxlen, word_len(w) + 1)
+                # A word with an empty alternative ("const|") is optional.  No pattern literal of lib/*.cpp ENDS in an optional word (checked
+                # below), so "the pattern is exhausted by optional words at the end of the token list" never decides a match in the
+                # sources; there the interpreter answers false and the compiled matcher true (recorded in DESIGN.md 10.5).  The one-word
+                # form of such a word is therefore compared on existing tokens only; the `W @@` form is compared on every shape.
+                guard = "shape == 0 || " if (variant == "one" and optional_word(w)) else ""
                 body.append('    { verif_thrown = 0; _Bool a = Token_Match(tok, "%s", varid); _Bool b = match%d(tok, varid); '
                             '__CPROVER_assert(!verif_thrown, "pattern %s: no exception for a non-zero varid"); '
-                            '__CPROVER_assert(a == b, "pattern \\"%s\\": compiled matcher == Token::Match"); }' % (pat, nr, pat, pat))
+                            '__CPROVER_assert(%sa == b, "pattern \\"%s\\": compiled matcher == Token::Match"); }' % (pat, nr, pat, guard, pat))
         pieces.append("#if defined(%s)\n#define SLEN_%s %d\nvoid %s(void) {\n"
                       "    struct Token t0, t1, t2; char b0[SMAXALL + 1], b1[SMAXALL + 1]; static char sb[3] = \"@@\";\n"
                       "    mk_token(&t0, b0, SLEN_%s); mk_token(&t1, b1, 2); t2.mStr = sb; t2.mStrLen = 2; t2.mNext = NULL; t2.mVarId = 0; t2.mTokType = Token_eOther; t2.mFlags = 0;\n"
@@ -382,13 +402,13 @@ void h_chrInFirstWord(void) { const char *a; (void)chrInFirstWord(a, nondet_char
     kb.job("chrInFirstWord", "h_chrInFirstWord", enforce="chrInFirstWord", loop_contracts=True)
     for hname, grp, sl, plen in groups:
         # loops run over the concrete pattern (length plen + 3 for " @@") and over token strings (<= SMAXALL)
-        kb.job("words." + hname[8:], hname, kind="bounded", props=["C33"], flags=["--sat-solver", "minisat2"], unwind=max(12, plen + 6), unwindset=["Token_Match.4:4"], defines=["NOCONTRACT", hname.upper()], timeout=300, no_std_checks=False,
+        kb.job("words." + hname[8:], hname, kind="bounded", props=["C33"], flags=["--sat-solver", "minisat2"], unwind=max(12, plen + 6), unwindset=["Token_Match.4:4"], defines=["NOCONTRACT", hname.upper()], timeout=(900 if ctx.tier == "thorough" else 400), no_std_checks=False,
                # Token_Match.4 is the outer word loop of Token::Match (loops are numbered by back edge): a one- or two-word pattern needs at most 4
                # iterations; bounding it keeps the pattern pointer from being explored symbolically (an insufficient bound shows as *undecided*)
                note="words %s: token lists of 0..2 tokens (+ sentinel), token strings 1..%d chars, type/flags/varId symbolic; varid > 0" % (" ".join(grp), sl))
     for pi, a in probes:
         kb.job("probe.%d" % pi, "h_probe_%d" % pi, kind="bounded", props=["C33"], flags=["--sat-solver", "minisat2"], unwind=len(a) + 8, unwindset=["Token_Match.4:4"],
-               defines=["NOCONTRACT", "H_PROBE_%d" % pi], timeout=300,
+               defines=["NOCONTRACT", "H_PROBE_%d" % pi], timeout=(900 if ctx.tier == "thorough" else 400),
                note="pattern word %s on a token spelled like it with one character replaced or appended; type/flags/varId symbolic" % a)
     kb.assumptions += ["token invariant (assumed, established by Token::tokType(t)/update_property_info which are not verified): fIsName == (type is a name type); varId != 0 => name type; "
                        "for every spelling in the match compiler's tokTypes table the token has one of the listed types; token strings are non-empty and contain no NUL or space",
